@@ -7,7 +7,7 @@ PROPS["C05"] = dict(
     parts=[rc("h_c05", quick=dict(cases=32000, procs=16, args=["--enum", "3"], budget_s=900),
               thorough=dict(cases=400000, procs=16, args=["--enum", "7"], budget_s=3300)),
            py("vv.exe_c05", quick=dict(cases=192, procs=16, budget_s=600), thorough=dict(cases=1600, procs=16, budget_s=3000))],
-    rule=("schedules: one case = (threads 1..8, frames 1..12, --first-frame, --nframes absent/0/1/../more than frames, ordered|unordered, "
+    rule=("schedules: one case = (threads 1..8, frames 1..12, --first-frame, --begin (frame times t0+i*dt; begin before / on / between / after the frame times), --nframes absent/0/1/../more than frames, ordered|unordered, "
           "choice sequence of length 0..60); the real CsgApplication::Run/ProcessData/Worker::Run runs in a forked child under the "
           "controlled scheduler (every tools::Mutex lock/unlock, thread begin/end/join and the harness yield points inside the reader, "
           "evaluation and merge are decision points; runnable set from the scheduler's own mutex model). Oracle = invariants over the "
